@@ -28,10 +28,10 @@ try:
     env = dict(os.environ, PYTHONPATH=d, PYTHONDONTWRITEBYTECODE="1", TZ="UTC")
     env.pop("DATEPARSER_VERIF", None)
     demo = os.path.join(src, "demo.py")
-    shutil.copy(demo, os.path.join(d, "_demo.py"))
+    shutil.copy(demo, os.path.join(d, "demo.py"))
 
     def run_demo():
-        r = subprocess.run(["/venv/bin/python", "_demo.py"], cwd=d, env=env, capture_output=True, text=True, timeout=900)
+        r = subprocess.run(["/venv/bin/python", "demo.py"], cwd=d, env=env, capture_output=True, text=True, timeout=900)
         return r.returncode, (r.stdout + r.stderr)[-400:]
     rc0, out0 = run_demo()
     res["demo_unpatched"] = {"rc": rc0, "tail": out0}
@@ -47,7 +47,7 @@ try:
     res["demo_patched"] = {"rc": rc1, "tail": out1}
     if not a.no_suite:
         junit = os.path.join(d, "_junit.xml")
-        subprocess.run(["/venv/bin/python", "-m", "pytest", "-q", "-p", "no:cacheprovider", "--timeout=900", "--continue-on-collection-errors", "--ignore=_demo.py", "--ignore=_out",
+        subprocess.run(["/venv/bin/python", "-m", "pytest", "-q", "-p", "no:cacheprovider", "--timeout=900", "--continue-on-collection-errors", "--ignore=demo.py", "--ignore=_out",
                         "--junitxml=" + junit], cwd=d, env=env, capture_output=True, text=True, timeout=3600)
         base = set(json.load(open("/root/.vp/BASELINE.json"))["stable_pass"])
         passed = set()
